@@ -387,7 +387,7 @@ def assemble(unit_dir, mode='verify'):
                   'hash': hashlib.sha256(r['orig_norm'].encode()).hexdigest()[:12]}
             if c.opts.get('pin') and c.opts['pin'] != fn['hash']:
                 raise Undecided(f"fn {c.path}: pinned text changed (now {fn['hash']}); the assumed contract no longer applies")
-            fn['inlined'] = r['rewrites'].get('R23.inline_helper', 0)
+            fn['inlined'] = r['rewrites'].get('R23.inline_helper_needs_proof_aid', 0)   # straight-line read-only helpers are inlined exactly
             fn['anchors_lost'] = len(r.get('missing_anchors', []))
             fn['first_line'] = len(g.lines) + 1
             retname = c.opts.get('ret', 'r')
